@@ -46,11 +46,12 @@ type latentInfo struct {
 }
 
 type parent struct {
-	r      *core.Run
-	mu     sync.Mutex
-	latent map[string]*latentInfo
-	dir    string
-	nchild int
+	envRetries int // children lost to resource exhaustion of the machine (re-run)
+	r          *core.Run
+	mu         sync.Mutex
+	latent     map[string]*latentInfo
+	dir        string
+	nchild     int
 }
 
 func TestC15(t *testing.T) {
@@ -209,6 +210,26 @@ func (p *parent) runChild(spec childSpec) int {
 	stderr := ""
 	if bz, err := os.ReadFile(errPath); err == nil {
 		stderr = string(bz)
+	}
+	// a process that could not get a thread or memory from the operating system (the machine was out of process ids /
+	// memory) did not die of the code under test: the same histories are run again, a few times at most
+	for _, mark := range []string{"pthread_create failed", "failed to create new OS thread", "Resource temporarily unavailable", "resource temporarily unavailable", "cannot allocate memory", "out of memory", "newosproc"} {
+		if strings.Contains(stderr, mark) {
+			p.mu.Lock()
+			p.envRetries++
+			n := p.envRetries
+			p.mu.Unlock()
+			p.r.Count("children_killed_by_resource_exhaustion_of_the_machine", 1)
+			if n > 6 {
+				p.r.Inconclusive("child %s: the machine keeps running out of threads / memory (%q in stderr); last logged case: %+v", tag, mark, last)
+				return resume
+			}
+			time.Sleep(5 * time.Second)
+			if last == nil {
+				return spec.From
+			}
+			return resume - 1
+		}
 	}
 	if last == nil {
 		p.r.Inconclusive("child %s died before logging a case: %v; stderr: %s", tag, runErr, tail(stderr, 600))
